@@ -25,7 +25,7 @@ ASSUMPTIONS = [
     'termination is observed up to a 200k-step reference budget and a 10 s watchdog',
 ]
 BUDGET_S = {'quick': 120, 'thorough': 1200}
-ACCEPT_FLAGS = {'U2', 'U7', 'LR'}
+ACCEPT_FLAGS = {'U2', 'U7', 'U11', 'U12', 'LR'}
 
 
 def plan(tier):
